@@ -6,7 +6,7 @@ import signal
 import subprocess
 
 EX_TRAILER = b".\nq!\n" * 200
-VI_TRAILER = b"\x1b\x1b\x1b:q!\n" * 20
+VI_TRAILER = b"\x1b\x1b\x1b:\x05q!\n" * 20      # ^E: the ex prompt keymap is sticky (^F in a prompt selects the alternate keymap)
 
 ASAN_OPTIONS = "detect_leaks=0:abort_on_error=0:exitcode=97:allocator_may_return_null=1:handle_abort=1:detect_stack_use_after_return=0"
 UBSAN_OPTIONS = "print_stacktrace=1:halt_on_error=1:exitcode=98"
